@@ -1,7 +1,7 @@
 (** C11 — events reach every listening catch event exactly once and delivery never blocks.
     Model: Model/Inbox.v — a catch event as a function of its FIFO message sequence (arming requests
     of arriving tokens and delivered events), and delivery to listeners with bounded inboxes. *)
-From BV Require Import Model.Inbox Proofs.InboxProofs Model.Arming Proofs.ArmingProofs Model.Catch Proofs.CatchProofs Gen.Facts.
+From BV Require Import Model.Inbox Proofs.InboxProofs Model.Arming Proofs.ArmingProofs Model.Catch Proofs.CatchProofs Model.EventTree Proofs.EventTreeProofs Gen.Facts.
 
 (* EXACTLY ONCE — for every message history of a listener: every token that armed it has either
    continued exactly once or is still waiting ... *)
@@ -86,3 +86,16 @@ Theorem C11_fresh_start_refuted_when_reset_skips_idle_listeners :
   c_conts (crun true false ms) = 2 /\ c_conts (crun true true ms) = 1 /\ c_waiting (crun true true ms) = 1.
 Proof. exact refuted_reset_only_when_waiting. Qed.
 Print Assumptions C11_fresh_start_refuted_when_reset_skips_idle_listeners.
+
+(* EVENTS FIND THE CATCH EVENTS INSIDE EMBEDDED SUB-PROCESSES (Model/EventTree.v: the tree of event consumers; the flag
+   [src_subprocess_registers] is read off subprocess.go on every run): every catch event, at whatever depth, is reached *)
+Theorem C11_every_catch_event_reached_at_any_depth : forall top,
+  all_built src_subprocess_registers top -> deliver top = flat_map catches top.
+Proof. exact every_catch_event_reached. Qed.
+Print Assumptions C11_every_catch_event_reached_at_any_depth.
+(* the code as found did not register a sub-process with its parent: nothing inside ever heard of an event (fixed) *)
+Theorem C11_delivery_refuted_for_unregistered_subprocesses :
+  deliver [ECatch 1; ESub false [ECatch 2; ESub false [ECatch 3]]] = [1] /\
+  deliver [ECatch 1; ESub true [ECatch 2; ESub true [ECatch 3]]] = [1; 2; 3].
+Proof. exact refuted_unregistered_subprocess. Qed.
+Print Assumptions C11_delivery_refuted_for_unregistered_subprocesses.
